@@ -52,6 +52,20 @@ def dedup : List Nat → List Nat
   | [] => []
   | x :: xs => if (dedup xs).contains x then dedup xs else x :: dedup xs
 
+/-- `dedup` keeps every element -/
+theorem mem_dedup {x : Nat} {l : List Nat} (h : x ∈ l) : x ∈ dedup l := by
+  induction l with
+  | nil => cases h
+  | cons y ys ih =>
+    simp only [dedup]
+    rcases List.mem_cons.mp h with rfl | h'
+    · split
+      · rename_i hc; simpa using hc
+      · simp
+    · split
+      · exact ih h'
+      · exact List.mem_cons_of_mem _ (ih h')
+
 /-- `dependency_steps(step, graph)` after `add_explicit_dependencies` and `add_implicit_dependencies` -/
 def buildGraph (p : Pipeline) (i : Nat) : List Nat :=
   dedup ((p.recs i).filterMap (fun r => match r with | .step j => some j | _ => none) ++
